@@ -8,7 +8,7 @@ FIELDS = ["n", "bounds", "disj", "cover", "counts", "congr", "tree", "leaves", "
 def cases(ctx):
     rng = ctx.rng
     out = []
-    n_rand = 350 if ctx.quick else 4000
+    n_rand = 1500 if ctx.quick else 12000
     for dt in S.ALL_DT:
         out.append(S.enc_case(rng, dt=dt, kind="dups"))          # duplicates at quantile boundaries
         out.append(S.enc_case(rng, dt=dt, kind="lattice"))
